@@ -107,13 +107,21 @@ fn panics(f: &Facts, cfg: &CCfg, rule: &str, vs: &mut Vec<Violation>) {
 // ---------------------------------------------------------------------------------------------
 // C01
 
+/// What a stray reply must not change: every call's outcome, the requests transmitted, how the
+/// dispatch ended. Cancellations are deliberately not compared: an extra read shifts the phase of
+/// the dispatch's read/write loop, and whether a cancellation for an *abandoned* call is still
+/// written when its reply is already in the transport legitimately depends on that phase.
 fn observable(f: &Facts) -> (Vec<(usize, String)>, Vec<Msg>, Option<String>, usize) {
     (
         f.caller_out
             .iter()
             .map(|(i, (_, o, _))| (*i, o.clone()))
             .collect(),
-        f.wire.iter().map(|(_, m)| m.clone()).collect(),
+        f.wire
+            .iter()
+            .filter(|(_, m)| matches!(m, Msg::Req { .. }))
+            .map(|(_, m)| m.clone())
+            .collect(),
         f.dispatch_done.as_ref().map(|d| d.1.clone()),
         f.panics.len(),
     )
@@ -128,7 +136,6 @@ fn c01(
     nt: &mut bool,
     extra: &mut u32,
 ) {
-    let _ = e;
     panics(f, cfg, "C01-e-panic", vs);
     // (c) ids unique on the wire
     let mut ids = BTreeSet::new();
@@ -191,18 +198,20 @@ fn c01(
     }
     // (d) stray replies change nothing: differential rerun with the stray replaced by a
     // spurious wake
-    if f.strays > 0 && f.panics.is_empty() {
+    // Not applied once the clock has been moved in the main phase: at t >= D a reply and the
+    // deadline race legitimately, and an extra read can flip which one the dispatch sees first.
+    let clock_moved = {
+        let q1 = f.q1.as_ref().map(|q| q.0).unwrap_or(usize::MAX);
+        e.recs[..q1.min(e.recs.len())].iter().any(|r| matches!(r, Rec::N("time", _)))
+    };
+    if f.strays > 0 && f.panics.is_empty() && !clock_moved {
         let base = observable(f);
         for n in 1..=f.strays {
             let e2 = execute(cfg, prefix, Some(n));
             *extra += 1;
-            if let Some(err) = &e2.err {
-                v(
-                    vs,
-                    "C01-d-stray-diverged",
-                    cfg,
-                    format!("removing stray reply #{n} changed the shape of the execution: {err}"),
-                );
+            if e2.err.is_some() {
+                // the two runs interleave reads and writes differently, so later option lists
+                // may differ: the comparison is then inconclusive, not a verdict
                 continue;
             }
             let f2 = facts(&e2.recs);
